@@ -175,8 +175,10 @@ def run(ctx: Ctx):
     rt.I.ext["builtins.round"] = lambda I, a, k, n: __import__("pgverif.num", fromlist=["Num"]).Num.atom(f"round({I.describe(a[0])},{I.describe(a[1]) if len(a) > 1 else ''})")
     ctx.assume("hashlib digests and json.dumps(sort_keys=True) are process independent; hash_pandas_object(index=False) depends on values only")
     rc.r_to_dict(ctx, rt, "C05")
+    rc.r_registered_material(ctx, rt, "C05")
     rc.r_model_dict(ctx, rt, "C05")
     rc.r_branch_canon(ctx, rt, "C05")
+    rc.r_column_order(ctx, rt, "C05")
     r_attr(ctx, rt)
     r_hash(ctx, rt)
     r_eq(ctx, rt)
